@@ -224,6 +224,20 @@ func main() {
 		os.Exit(2)
 	}
 	rootV, _ := datastore.VersionFromUUID(dvid.UUID(root))
+	// a second repo with a committed root and one child: storage-level reads at the child resolve over two versions
+	chainRoot, err := dv.NewRepo("c06chain")
+	if err != nil {
+		fmt.Fprintln(os.Stderr, err)
+		os.Exit(2)
+	}
+	dv.Commit(chainRoot)
+	chainChild, _ := dv.NewVersion(chainRoot)
+	chainRootV, _ := datastore.VersionFromUUID(dvid.UUID(chainRoot))
+	chainChildV, err2 := datastore.VersionFromUUID(dvid.UUID(chainChild))
+	if err2 != nil || chainChildV <= chainRootV {
+		fmt.Fprintln(os.Stderr, "c06: no child version for the chain scenario:", err2)
+		os.Exit(2)
+	}
 	stub, err = datastore.NewDataService(keyvalue.NewType(), dvid.UUID(root), 7, "stub", dvid.NewConfig())
 	if err != nil {
 		fmt.Fprintln(os.Stderr, err)
@@ -654,6 +668,45 @@ func main() {
 			for _, tk := range corpus {
 				get(i, tk)
 			}
+		case "prefixchain":
+			// TKeys that extend one another by bytes sorting between, before and after the version ids of the
+			// shorter TKey's entries (T ++ BE32(version) ++ ...): written at a committed root, then every one
+			// of them overwritten or deleted at the child, then read at the child
+			i := grid[r.Intn(len(grid))]
+			before = dumpData()
+			be := func(x uint32) []byte { return []byte{byte(x >> 24), byte(x >> 16), byte(x >> 8), byte(x)} }
+			base := tkeyCorpus()[r.Intn(len(tkeyCorpus()))]
+			if len(base) > 12 {
+				base = base[:12]
+			}
+			cat := func(parts ...[]byte) []byte {
+				var out []byte
+				for _, p := range parts {
+					out = append(out, p...)
+				}
+				return out
+			}
+			ff := []byte{0xFF, 0xFF, 0xFF, 0xFF, 0xFF}
+			tks := [][]byte{base, cat(base, be(uint32(chainRootV)), ff), cat(base, be(uint32(chainChildV)), ff), cat(base, be(uint32(chainRootV))),
+				cat(base, be(0)), cat(base, be(uint32(chainChildV)+1), []byte{0}), cat(base, []byte{0}), cat(base, be(uint32(chainRootV)), []byte{0, 0, 0, 0, 0x4F})}
+			v = uint32(chainRootV)
+			for _, tk := range tks {
+				if r.Chance(0.85) {
+					put(i, tk, val())
+				}
+			}
+			v = uint32(chainChildV)
+			for _, tk := range tks {
+				if r.Chance(0.4) {
+					del(i, tk)
+				} else {
+					put(i, tk, val())
+				}
+			}
+			for _, tk := range tks {
+				get(i, tk)
+			}
+			v = uint32(rootV)
 		default: // "mixed": random operations over neighbouring instances
 			base := grid[r.Intn(len(grid))]
 			ids := []uint32{base, base + 1, base + 2}
@@ -1210,6 +1263,7 @@ func main() {
 	}
 	for n := 0; n < nSt/2; n++ {
 		addStore("prefix", rng.U64())
+		addStore("prefixchain", rng.U64())
 		addStore("mixed", rng.U64())
 	}
 	// HTTP-level instance histories
